@@ -146,6 +146,27 @@ def run(tier, seed, args):
             files.append(fp)
     os.remove(tr)
     r = random.Random(seed)
+    # check-crc in directory mode (recursive): the exit status is that of ALL files, wherever the damaged one is visited
+    import shutil
+    for rnd in range(2 if tier == "quick" else 6):
+        dd = os.path.join(wd, f"crcdir{rnd}")
+        shutil.rmtree(dd, ignore_errors=True); os.makedirs(os.path.join(dd, "sub", "deeper"))
+        members = []
+        for i, fp in enumerate(files[:5] if rnd % 2 == 0 else files[-4:]):
+            rel = [f"{chr(97 + i)}.e57", f"sub/{chr(109 + i)}.E57", f"sub/deeper/{chr(120 - i)}.e57"][(i + rnd) % 3]
+            shutil.copy(fp, os.path.join(dd, rel)); members.append(rel)
+        open(os.path.join(dd, "notes.txt"), "w").write("not an e57 file")
+        rc, _ = run_tool(tools["e57-check-crc"], [dd])
+        ev({"ev": "t_crc", "file": f"dir{rnd}", "dir": 1, "altered": 0, "exit": rc})
+        for rel in members:
+            orig = open(os.path.join(dd, rel), "rb").read()
+            b = bytearray(orig); b[r.randrange(len(b))] ^= 1 << r.randrange(8)
+            open(os.path.join(dd, rel), "wb").write(bytes(b))
+            rc, _ = run_tool(tools["e57-check-crc"], [dd])
+            ev({"ev": "t_crc", "file": f"dir{rnd}:{rel}", "dir": 1, "altered": 1, "exit": rc})
+            open(os.path.join(dd, rel), "wb").write(orig)
+            ncases += 1
+        shutil.rmtree(dd, ignore_errors=True)
     for fp in files:
         img = open(fp, "rb").read()
         dump = fp + ".lib.json"
